@@ -70,6 +70,8 @@ class Ctx:
                                stderr=subprocess.PIPE, text=True, timeout=timeout, errors="replace")
         except subprocess.TimeoutExpired:
             raise Infra("time-out after %ss: %s" % (timeout, " ".join(argv[:4])))
+        if os.environ.get("VERIF_TIMING"):
+            sys.stderr.write("TIMING run %s %.1fs\n" % (os.path.basename(argv[0]) + " " + " ".join(a for a in argv[1:] if not a.startswith("/"))[:60], time.time() - t))
         if p.returncode not in ok:
             e = Infra("command failed (%d): %s\n%s\n%s" % (p.returncode, " ".join(argv[:6]), p.stdout[-2000:], p.stderr[-4000:]))
             e.stderr = p.stderr
@@ -79,10 +81,62 @@ class Ctx:
 
 
     # ---------------------------------------------------------------- tlc
+    def spec_hash(self, module):
+        """hash of the module and of every module of spec/ it extends or instantiates, transitively"""
+        if not hasattr(self, "_spec_hashes"):
+            self._spec_hashes = {}
+        if module in self._spec_hashes:
+            return self._spec_hashes[module]
+        seen, todo = [], [module]
+        while todo:
+            m = todo.pop()
+            f = os.path.join(SPEC, m + ".tla")
+            if m in seen or not os.path.exists(f):
+                continue
+            seen.append(m)
+            text = open(f).read()
+            for line in re.findall(r"^\s*(?:EXTENDS|INSTANCE)\s+([^\n]+)", text, re.M):
+                for dep in re.split(r"[,\s]+", line.split("WITH")[0]):
+                    if dep:
+                        todo.append(dep)
+        h = hashlib.sha256()
+        for m in sorted(seen):
+            h.update(m.encode())
+            h.update(open(os.path.join(SPEC, m + ".tla"), "rb").read())
+        self._spec_hashes[module] = h.hexdigest()
+        return self._spec_hashes[module]
+
     def tlc(self, module, cfg_text, name, workers=None, simulate=None, depth=None, timeout=900,
-            extra=(), deque=False, coverage=False):
+            extra=(), deque=False, coverage=False, pure=False):
         """Run TLC on spec/<module>.tla with the given cfg text inside the scratch copy of spec/.
-        Returns a dict: status in {ok, invariant, deadlock, property, assumption, error}, counts, output."""
+        Returns a dict: status in {ok, invariant, deadlock, property, assumption, error}, counts, output.
+        pure=True marks a run whose result depends on the specification alone (exhaustive model checking of a
+        configuration that reads and writes no file): in the quick tier its result is reused from /verif/cache/tlc
+        when the hash of the module (with everything it extends) and the configuration are the same (the thorough tier always
+        recomputes and refreshes the entry)."""
+        cache_file = None
+        if pure and not simulate and not extra:
+            key = hashlib.sha256((self.spec_hash(module) + "\0" + module + "\0" + cfg_text).encode()).hexdigest()[:32]
+            cache_file = os.path.join(VERIF, "cache", "tlc", key + ".json")
+            if self.tier == "quick" and not os.environ.get("VERIF_NOCACHE") and os.path.exists(cache_file):
+                res = json.load(open(cache_file))
+                res["cached"] = True
+                res["cfg"] = name
+                self.coverage["spec_results_reused"] = self.coverage.get("spec_results_reused", 0) + 1
+                if os.environ.get("VERIF_TIMING"):
+                    sys.stderr.write("TIMING tlc %s/%s cached\n" % (module, name))
+                return res
+        res = self._tlc(module, cfg_text, name, workers, simulate, depth, timeout, extra, deque, coverage)
+        if cache_file and res.get("status") in ("ok", "invariant", "property", "deadlock"):
+            os.makedirs(os.path.dirname(cache_file), exist_ok=True)
+            keep = dict(res)
+            keep["output"] = res["output"][-3000:]
+            with open(cache_file, "w") as f:
+                json.dump(keep, f)
+        return res
+
+    def _tlc(self, module, cfg_text, name, workers=None, simulate=None, depth=None, timeout=900,
+             extra=(), deque=False, coverage=False):
         d = self.path("spec")
         with self._lock:
             if not os.path.isdir(d):
@@ -113,6 +167,8 @@ class Ctx:
             raise Infra("TLC time-out (%ss) on %s/%s" % (timeout, module, name))
         out = p.stdout
         res = {"module": module, "cfg": name, "wall_s": round(time.time() - t, 2), "output": out, "rc": p.returncode}
+        if os.environ.get("VERIF_TIMING"):
+            sys.stderr.write("TIMING tlc %s/%s %.1fs\n" % (module, name, time.time() - t))
         m = re.search(r"(\d+) states generated, (\d+) distinct states found", out)
         if m:
             res["generated"], res["distinct"] = int(m.group(1)), int(m.group(2))
@@ -181,6 +237,8 @@ class Ctx:
             print("VIOLATION property=%s replay=%s" % (self.prop, path))
             print("  what: %s" % what)
             rc = 1
+        if self.coverage.get("spec_results_reused"):
+            self.assumptions.append("%d exhaustive model-checking results depending on the specification alone were reused from /verif/cache/tlc (keyed by the hash of the module with everything it extends, and of the configuration); the thorough tier recomputes them" % self.coverage["spec_results_reused"])
         self.write_evidence(len(reported))
         for n in self.notes:
             print(n)
